@@ -212,6 +212,89 @@ func c13expr2(r *vrng, depth int, complete bool) []byte {
 	return b
 }
 
+// ---- deferred blocks (Buffer / While / BankField): their TermArg is parsed in a later pass ----
+
+var c13type2 = []struct {
+	op    byte
+	nargs int
+}{{0x72, 3}, {0x74, 3}, {0x77, 3}, {0x7b, 3}, {0x70, 2}, {0x75, 1}, {0x80, 2}, {0x79, 3}}
+
+// c13cutExpr emits opcode `op` with only its first `have` operands; operand `nestAt` (if < have) is
+// itself an expression cut short (Add(1, Subtract <missing>)).
+func c13cutExpr(r *vrng, op byte, have, nestAt int) []byte {
+	b := []byte{op}
+	for i := 0; i < have; i++ {
+		if i == nestAt {
+			b = append(b, 0x74)
+			if r.chance(50) {
+				b = append(b, 0x0a, 0x05)
+			}
+		} else {
+			b = append(b, c13const(r)...)
+		}
+	}
+	return b
+}
+
+// c13deferred wraps a (possibly cut) TermArg into one of the deferred constructs. kind: 0 Buffer
+// size, 1 While predicate inside a method, 2 BankField value.
+func c13deferred(r *vrng, kind int, term []byte, name []byte) []byte {
+	switch kind {
+	case 0:
+		body := append([]byte{}, term...)
+		return append(append([]byte{0x08}, name...), append([]byte{0x11}, c13pkg(body)...)...)
+	case 1:
+		wh := append([]byte{0xa2}, c13pkg(term)...)
+		m := append(append([]byte{}, name...), 0x00)
+		m = append(m, wh...)
+		return append([]byte{0x14}, c13pkg(m)...)
+	default:
+		reg := append(append([]byte{0x5b, 0x80}, []byte("REGB")...), 0x00, 0x0a, 0x00, 0x0a, 0x10)
+		fld := append(append([]byte("REGB"), 0x01), append([]byte("BNK0"), 0x08)...)
+		reg = append(reg, append([]byte{0x5b, 0x81}, c13pkg(fld)...)...)
+		bf := append([]byte("REGB"), []byte("BNK0")...)
+		bf = append(bf, term...)
+		if len(term) > 0 && r.chance(50) {
+			bf = append(append(bf, 0x01), append(append([]byte{}, name...), 0x08)...)
+		}
+		return append(reg, append([]byte{0x5b, 0x87}, c13pkg(bf)...)...)
+	}
+}
+
+// c13deferredRandom: a deferred construct whose TermArg is complete (then the rest of the block is
+// well-formed too) or cut at a random operand boundary.
+func c13deferredRandom(r *vrng) []byte {
+	kind := r.intn(3)
+	o := c13type2[r.intn(len(c13type2))]
+	name := c13pickName(r)
+	if r.chance(55) {
+		have := r.intn(o.nargs)
+		nest := -1
+		if have > 0 && r.chance(30) {
+			nest = have - 1
+		}
+		return c13deferred(r, kind, c13cutExpr(r, o.op, have, nest), name)
+	}
+	term := c13cutExpr(r, o.op, o.nargs, -1)
+	if o.nargs >= 2 {
+		term[len(term)-1] = 0x60
+		// the last operand is a target: constants written by c13const may be 2-3 bytes, rebuild
+		term = []byte{o.op}
+		for i := 0; i < o.nargs-1; i++ {
+			term = append(term, 0x0a, byte(r.intn(8)))
+		}
+		term = append(term, 0x60)
+	}
+	switch kind {
+	case 0:
+		return c13deferred(r, 0, append(term, 1, 2, 3), name)
+	case 1:
+		return c13deferred(r, 1, append(term, 0xa4, 0x00), name)
+	default:
+		return c13deferred(r, 2, append(append(term, 0x01), append(append([]byte{}, name...), 0x08)...), name)
+	}
+}
+
 // c13scopeBody emits the statements of one scope.
 func c13scopeBody(r *vrng, depth int) []byte {
 	var b []byte
@@ -261,6 +344,10 @@ func c13scopeBody(r *vrng, depth int) []byte {
 			b = append(b, c13expr2(r, 2, r.chance(50))...)
 		}
 	}
+	// deferred blocks, about half of them with the operands of their TermArg cut short
+	if r.chance(30) {
+		b = append(b, c13deferredRandom(r)...)
+	}
 	// the end of a scope: sometimes a region followed by bare expression opcodes
 	if r.chance(35) {
 		b = append(append(b, 0x5b, 0x80), c13pickName(r)...)
@@ -304,6 +391,24 @@ func c13parseBoundary(out *verifWriter) {
 	sc := append([]byte("\\_SB_DEV0"), append([]byte{0x08}, append([]byte("_HID"), 0x0a, 0x02)...)...)
 	t5 := append([]byte{0x10}, c13pkg(sc)...)
 	c13parseCase(out, r, []string{c13hex(t4), c13hex(t5), c13hex(t2)}, [][]byte{t4, t5, t2}, 50, 10)
+	// rejected tables: a deferred block (Buffer size / While predicate / BankField value) whose TermArg
+	// is a Type2 opcode cut at every operand boundary (and the nested variant); the tree outlives the
+	// rejected table, a well-formed table follows
+	ok0 := append([]byte{0x08}, append([]byte("OK00"), 0x01)...)
+	for kind := 0; kind < 3; kind++ {
+		for _, o := range c13type2 {
+			for have := 0; have < o.nargs; have++ {
+				for _, nest := range []int{-1, have - 1} {
+					if nest >= have || (nest < 0 && have > 0 && false) {
+						continue
+					}
+					out.printf("case p-deferred-k%d-op%02x-have%d-nest%d\n", kind, o.op, have, nest)
+					tb := append(append([]byte{}, ok0...), c13deferred(r, kind, c13cutExpr(r, o.op, have, nest), []byte("FOO_"))...)
+					c13parseCase(out, r, []string{c13hex(tb), c13hex(t2)}, [][]byte{tb, t2}, 20, 4)
+				}
+			}
+		}
+	}
 	// the shipped tables, alone and loaded one after the other into one namespace
 	names, payloads := c13shipped()
 	for i, n := range names {
